@@ -21,12 +21,16 @@ type tokSpec struct {
 	Pl      string `json:"pl"` // %EXP% / %IAT% are replaced by now+ExpOff / now+IatOff
 	ExpOff  int64  `json:"expoff"`
 	IatOff  int64  `json:"iatoff"`
-	SignKey []byte `json:"signkey"` // key material fed to the signature (as the issuer holds it)
-	Mut     mut    `json:"mut"`     // alteration of the token text sent / of the client's signature
-	Adapt   bool   `json:"adapt"`   // the client derives K from the altered token text
+	SignKey []byte `json:"signkey"`         // key material fed to the signature (as the issuer holds it)
+	Mut     mut    `json:"mut"`             // alteration of the token text sent / of the client's signature
+	Adapt   bool   `json:"adapt"`           // the client derives K from the altered token text
+	Fixed   int64  `json:"fixed,omitempty"` // mint relative to this instant instead of the current second (replays)
 }
 
 func (t tokSpec) mint(now int64) (hp string, sig []byte) {
+	if t.Fixed != 0 {
+		now = t.Fixed
+	}
 	pl := strings.ReplaceAll(t.Pl, "%EXP%", fmt.Sprint(now+t.ExpOff))
 	pl = strings.ReplaceAll(pl, "%IAT%", fmt.Sprint(now+t.IatOff))
 	hp = b64e([]byte(t.Hdr)) + "." + b64e([]byte(pl))
@@ -80,7 +84,10 @@ type sCase struct {
 	M3      mut     `json:"m3"`
 	Expect  int     `json:"expect"` // 1 must accept, 0 must reject, -1 no expectation
 	NoModel bool    `json:"nomodel,omitempty"`
-	RA      []byte  `json:"ra"`
+	// replay of a recorded exchange: these frames are sent instead of freshly built ones
+	ReplayPre  []frame `json:"replay_pre,omitempty"`
+	ReplayPost []frame `json:"replay_post,omitempty"`
+	RA         []byte  `json:"ra"`
 }
 
 func rep(c byte, n int) []byte { return bytes.Repeat([]byte{c}, n) }
@@ -218,6 +225,9 @@ func buildM3(in m3in, m mut) []frame {
 		trail = rep(0x42, m.Arg)
 	}
 	rblen, maclen = int64(len(rb))+dlen, int64(len(mac))+dmac
+	if m.Kind == "none" { // the peer goes away instead of answering
+		return nil
+	}
 	var b []byte
 	if empty {
 		b = encode([]field{fi(status), fi(0), fs(nil), fi(0), fi(0)})
@@ -277,8 +287,14 @@ func runS(sc *sCase, evilKey []byte) sRun {
 		K := refKdf(cliSig, cliTok)
 		Kevil := refKdf(refSign(evilKey, cliTok), cliTok)
 		pre, raSeen := buildM1(claimed, sent, sc.RA, sc.M1)
+		if sc.ReplayPre != nil {
+			pre = sc.ReplayPre
+		}
 		r.pre = pre
 		post := func(s []frame) []frame {
+			if sc.ReplayPost != nil {
+				return sc.ReplayPost
+			}
 			m2 := parse2(s)
 			return buildM3(m3in{cid: []byte(sc.Sub), claimed: claimed, rb: m2.RB, ra: raSeen, sid: m2.SID,
 				K: K, Kevil: Kevil, sig: cliSig, srvMAC: m2.MAC}, sc.M3)
